@@ -275,6 +275,25 @@ fn check_cli(c: &Case, ctx: &Ctx) -> Outcome {
             let exp = tab(order[0]).merge(tab(order[1])).merge(tab(order[2]));
             model::compare_nk(&nk(ctx, &dir, &format!("{out}.skf"))?, &exp, k, rc, Some(k_bits_for(k))).map_err(|m| Outcome::Fail(format!("merge {order:?}: {m}")))?;
         }
+        // names derived from file names given on the command line may hold blanks ("strain A.fa"): they are kept as
+        // they are through save, reload and merge
+        if k % 3 != 1 {
+            cli::write_fasta_auto(&dir.join("strain A.fa"), &samples[0].1, None);
+            cli::write_fasta_auto(&dir.join("iso B 2.fasta"), &other[0].1, None);
+            let ks = k.to_string();
+            let mut args: Vec<&str> = vec!["build", "-o", "sp", "-k", &ks, "strain A.fa", "iso B 2.fasta"];
+            if !rc {
+                args.push("--single-strand");
+            }
+            must_ok(&run_ska(ctx, &dir, &args), "ska build \"strain A.fa\" \"iso B 2.fasta\"")?;
+            let sp: Vec<Sample> = vec![("strain A".to_string(), samples[0].1.clone()), ("iso B 2".to_string(), other[0].1.clone())];
+            let tsp = model_table(&sp, k, rc).1;
+            model::compare_nk(&nk(ctx, &dir, "sp.skf")?, &tsp, k, rc, Some(k_bits_for(k))).map_err(|m| Outcome::Fail(format!("build from files with blanks in their names: {m}")))?;
+            must_ok(&run_ska(ctx, &dir, &["merge", "sp.skf", "z.skf", "-o", "spz"]), "ska merge sp.skf z.skf")?;
+            model::compare_nk(&nk(ctx, &dir, "spz.skf")?, &tsp.merge(&tz), k, rc, Some(k_bits_for(k))).map_err(|m| Outcome::Fail(format!("merge of a file whose sample names hold blanks: {m}")))?;
+            must_ok(&run_ska(ctx, &dir, &["delete", "-s", "spz.skf", "strain A"]), "ska delete -s spz.skf \"strain A\"")?;
+            model::compare_nk(&nk(ctx, &dir, "spz.skf")?, &tsp.merge(&tz).delete(&["strain A".to_string()]), k, rc, Some(k_bits_for(k))).map_err(|m| Outcome::Fail(format!("delete of a sample whose name holds a blank: {m}")))?;
+        }
         // the same three tables as files of one name in three directories (batch1/run.skf, batch2/run.skf, ...)
         {
             for (d, f) in [("batch1", "x.skf"), ("batch2", "o.skf"), ("batch3", "z.skf")] {
